@@ -131,11 +131,11 @@ def find_stmt(pattern, root):
 
 
 def walk_no_nested(root, include_lambda=False):
-    """walk a function body without descending into nested defs/classes"""
-    stack = list(root) if isinstance(root, list) else [root]
-    first = True
-    while stack:
-        n = stack.pop()
+    """walk a function body in source order without descending into nested
+    defs/classes (the root itself may be a def)"""
+    roots = list(root) if isinstance(root, list) else [root]
+
+    def rec(n):
         yield n
         for c in ast.iter_child_nodes(n):
             if isinstance(c, (ast.FunctionDef, ast.AsyncFunctionDef,
@@ -143,7 +143,9 @@ def walk_no_nested(root, include_lambda=False):
                 continue
             if isinstance(c, ast.Lambda) and not include_lambda:
                 continue
-            stack.append(c)
+            yield from rec(c)
+    for r in roots:
+        yield from rec(r)
 
 
 def names_in(node):
